@@ -12,7 +12,7 @@ RULE = ("Hypothesis (program, fault choice, strategy, drive) tuples: program as 
         "handlers in the fault set perform all their actions and then raise; fault choice = Hypothesis subset of "
         "the executed events (indices into the fault-free run) or, for programs with <=16 executed events, EVERY "
         "single fault index in turn ('all-singles'); strategy in {LOG_AND_CONTINUE, WARN_AND_CONTINUE, "
-        "WARN_AND_PAUSE}, set with or without an explicit log level, possibly after another strategy, and possibly changed by a handler during the run; drive in {start, bounded runs at fractions of the horizon, steps, mixed}. Oracle: "
+        "WARN_AND_PAUSE}, set with or without an explicit log level, possibly after another strategy, before the first initialize / after it / before a re-initialization (or cleanup + initialize) of the same simulator, and possibly changed by a handler during the run; events are plain SimEvents or instances of a SimEvent subclass whose execute() lets the handler's own exception through; drive in {start, bounded runs at fractions of the horizon, steps, mixed}. Oracle: "
         "metamorphic against the fault-free reference run - continue strategies: identical trace/final clock/ENDED; "
         "pause strategy: STOPPED/STARTED exactly after each failing event, nothing later ran, start() resumes, "
         "concatenated trace identical; step(): returns or raises DSOLError only, simulator STOPPED, event consumed "
@@ -47,6 +47,8 @@ def strategy(tier):
         "strategy": st.sampled_from([1, 2, 3, 3]),
         "log_level": st.sampled_from([None, None, 50, 10, 0]),
         "prev_strategy": st.sampled_from([None, 1, 2, 3]),
+        "when": st.sampled_from(["after-init", "after-init", "before-init", "before-reinit", "before-cleanup-init"]),
+        "direct": st.booleans(),
         "drive": st.sampled_from(["start", "bounded", "step", "mixed"]),
         "cuts": st.lists(st.integers(1, 9), min_size=1, max_size=4),
         "mix": st.lists(st.sampled_from(["step", "run", "step", "start"]), min_size=1, max_size=10),
@@ -68,7 +70,7 @@ def _jt(b, ck):
     return b
 
 
-def _one_run(out, prog, strat, drive, cuts, mix, tag, log_level=None, prev=None):
+def _one_run(out, prog, strat, drive, cuts, mix, tag, log_level=None, prev=None, when="after-init"):
     """run one (program with faults, strategy, drive) on SUT and reference and compare"""
     from pydsol.core.simulator import RunState
     from pydsol.core.utils import DSOLError
@@ -91,13 +93,19 @@ def _one_run(out, prog, strat, drive, cuts, mix, tag, log_level=None, prev=None)
             m.simulator.set_error_strategy(a[1])
     h.model.extra_action = sut_action
     try:
-        h.initialize()
+        if when != "before-init":
+            h.initialize()
         if prev is not None:
             h.sim.set_error_strategy(prev)          # the strategy may be changed at any time
         if log_level is None:
             h.sim.set_error_strategy(strat)
         else:
             h.sim.set_error_strategy(strat, log_level)
+        # the strategy is a setting of the simulator: it holds for the replications initialized after it too
+        if when == "before-cleanup-init":
+            h.sim.cleanup()
+        if when != "after-init":
+            h.initialize()
         # build the command list
         cmds = []
         if drive == "start":
@@ -173,6 +181,10 @@ def run_case(case):
     out = Outcome()
     prog = copy.deepcopy(case["prog"])
     prog["faults"] = []
+    if case.get("direct"):
+        prog["direct_events"] = True
+        out.label("direct-events")
+    out.label("when=" + case.get("when", "after-init"))
     ck = prog["clock"]
     base = RefSim(prog)
     base.initialize()
@@ -201,7 +213,7 @@ def run_case(case):
         for k, seq in enumerate(executed):
             prog["faults"] = [seq]
             _one_run(out, prog, case["strategy"], case["drive"], case["cuts"], case["mix"], "single@%d" % k,
-                     case.get("log_level"), case.get("prev_strategy"))
+                     case.get("log_level"), case.get("prev_strategy"), case.get("when", "after-init"))
             runs += 1
             if interesting(seq):
                 out.nontrivial = True
@@ -211,7 +223,7 @@ def run_case(case):
         seqs = sorted({executed[i % len(executed)] for i in case["fault_idx"]})
         prog["faults"] = seqs
         _one_run(out, prog, case["strategy"], case["drive"], case["cuts"], case["mix"], "subset",
-                 case.get("log_level"), case.get("prev_strategy"))
+                 case.get("log_level"), case.get("prev_strategy"), case.get("when", "after-init"))
         runs = 1
         if any(interesting(s) for s in seqs):
             out.nontrivial = True
